@@ -76,27 +76,96 @@ func PipelineAsSteps(stmts []*gripql.GraphStatement) map[string]string {
 	return out
 }
 
+// hasExpressionKeys lists the field references used by a has() expression
+func hasExpressionKeys(e *gripql.HasExpression) []string {
+	if e == nil {
+		return nil
+	}
+	out := []string{}
+	switch x := e.Expression.(type) {
+	case *gripql.HasExpression_Condition:
+		if x.Condition != nil {
+			out = append(out, x.Condition.Key)
+		}
+	case *gripql.HasExpression_And:
+		for _, c := range x.And.GetExpressions() {
+			out = append(out, hasExpressionKeys(c)...)
+		}
+	case *gripql.HasExpression_Or:
+		for _, c := range x.Or.GetExpressions() {
+			out = append(out, hasExpressionKeys(c)...)
+		}
+	case *gripql.HasExpression_Not:
+		out = append(out, hasExpressionKeys(x.Not)...)
+	}
+	return out
+}
+
+// templateKeys lists the field references used by a render() template
+func templateKeys(t interface{}) []string {
+	out := []string{}
+	switch x := t.(type) {
+	case string:
+		out = append(out, x)
+	case map[string]interface{}:
+		for _, v := range x {
+			out = append(out, templateKeys(v)...)
+		}
+	case []interface{}:
+		for _, v := range x {
+			out = append(out, templateKeys(v)...)
+		}
+	}
+	return out
+}
+
 // PipelineStepOutputs identify the required outputs for each step in the traversal
 func PipelineStepOutputs(stmts []*gripql.GraphStatement) map[string][]string {
 
 	steps := PipelineSteps(stmts)
 	asMap := PipelineAsSteps(stmts)
+	// a mark name may be assigned at several steps
+	asAll := map[string][]string{}
+	for i, gs := range stmts {
+		if stmt, ok := gs.GetStatement().(*gripql.GraphStatement_As); ok {
+			asAll[stmt.As] = append(asAll[stmt.As], steps[i])
+		}
+	}
 	onLast := true
 	out := map[string][]string{}
+	// needField records that the statement at position i reads the given field
+	// reference, either from the current element or from a marked one
+	needField := func(i int, f string) {
+		n := jsonpath.GetNamespace(f)
+		if n == jsonpath.Current {
+			out[steps[i]] = []string{"*"}
+		}
+		for _, a := range asAll[n] {
+			out[a] = []string{"*"}
+		}
+	}
 	for i := len(stmts) - 1; i >= 0; i-- {
 		gs := stmts[i]
 		switch gs.GetStatement().(type) {
 		case *gripql.GraphStatement_Count:
 			onLast = false
 		case *gripql.GraphStatement_Select:
+			sel := gs.GetSelect().Marks
 			if onLast {
-				sel := gs.GetSelect().Marks
 				for _, s := range sel {
-					if a, ok := asMap[s]; ok {
+					for _, a := range asAll[s] {
 						out[a] = []string{"*"}
 					}
 				}
 				onLast = false
+			} else if len(sel) == 1 {
+				// the traveler moves back to the marked element: what later
+				// statements read from this step, they read from the marked step
+				if need, ok := out[steps[i]]; ok {
+					for _, a := range asAll[sel[0]] {
+						out[a] = append(out[a], need...)
+					}
+				}
 			}
 		case *gripql.GraphStatement_Distinct:
 			//if there is a distinct step, we need to load data, but only for requested fields
@@ -107,6 +176,9 @@ func PipelineStepOutputs(stmts []*gripql.GraphStatement) map[string][]string {
 					out[steps[i]] = []string{"*"}
 				}
 				if a, ok := asMap[n]; ok {
+					out[a] = []string{"*"}
+				}
+				for _, a := range asAll[n] {
 					out[a] = []string{"*"}
 				}
 			}
@@ -132,6 +204,49 @@ func PipelineStepOutputs(stmts []*gripql.GraphStatement) map[string][]string {
 			}
 		case *gripql.GraphStatement_Has:
 			out[steps[i]] = []string{"*"}
+			for _, k := range hasExpressionKeys(gs.GetHas()) {
+				needField(i, k)
+			}
+		case *gripql.GraphStatement_HasKey:
+			out[steps[i]] = []string{"*"}
+			for _, k := range protoutil.AsStringList(gs.GetHasKey()) {
+				needField(i, k)
+			}
+		case *gripql.GraphStatement_Fields, *gripql.GraphStatement_Aggregate:
+			out[steps[i]] = []string{"*"}
+			if agg := gs.GetAggregate(); agg != nil {
+				for _, a := range agg.Aggregations {
+					switch x := a.Aggregation.(type) {
+					case *gripql.Aggregate_Term:
+						needField(i, x.Term.GetField())
+					case *gripql.Aggregate_Histogram:
+						needField(i, x.Histogram.GetField())
+					case *gripql.Aggregate_Percentile:
+						needField(i, x.Percentile.GetField())
+					case *gripql.Aggregate_Field:
+						needField(i, x.Field.GetField())
+					case *gripql.Aggregate_Type:
+						needField(i, x.Type.GetField())
+					}
+				}
+			}
+		case *gripql.GraphStatement_Unwind:
+			out[steps[i]] = []string{"*"}
+			needField(i, gs.GetUnwind())
+		case *gripql.GraphStatement_Render:
+			for _, k := range templateKeys(gs.GetRender().AsInterface()) {
+				needField(i, k)
+			}
+		case *gripql.GraphStatement_Set:
+			out[steps[i]] = []string{"*"}
+			needField(i, gs.GetSet().GetKey())
+		case *gripql.GraphStatement_Increment:
+			out[steps[i]] = []string{"*"}
+			needField(i, gs.GetIncrement().GetKey())
+		case *gripql.GraphStatement_Jump:
+			for _, k := range hasExpressionKeys(gs.GetJump().GetExpression()) {
+				needField(i, k)
+			}
 		}
 	}
 	return out
